@@ -298,7 +298,7 @@ theorem tpm_core (env : Prog.Env) (o : AttObj) (h : Bytes) (res : Result)
     (hr : Prog.run env (verifyTPM o h) = some res) :
     ∃ der c rest ciRaw ci ciEnc, Prog.run env (unmarshalCertificates o.stmt) = .ok ((der, c) :: rest) ∧
       res = ⟨"AttCA", der :: rest.map (·.1)⟩ ∧
-      stmtBytes o.stmt "certInfo" = some ciRaw ∧ env.answer (.tpmCertInfo ciRaw) = .certInfo ci ∧
+      stmtBytes o.stmt "certInfo" = some ciRaw ∧ Tpm2.certInfo (Prog.run env askHashes) ciRaw = some ci ∧
       env.answer (.hash (Cose.algHash (getAlgorithm o.stmt)) (o.authData ++ h)) = .bytes ci.extraData ∧
       ci.encoded = some ciEnc ∧
       env.answer (.x509CheckSig der (Cose.algX509 (getAlgorithm o.stmt)) ciEnc (getSignature o.stmt)) = .bool true := by
@@ -315,9 +315,9 @@ theorem tpm_core (env : Prog.Env) (o : AttObj) (h : Bytes) (res : Result)
   | some ciRaw =>
   rw [hci] at hr
   dsimp only at hr
-  rw [Prog.run_bind, Prog.run_query] at hr
-  cases hciv : env.answer (.tpmCertInfo ciRaw) with
-  | certInfo ci =>
+  rw [Prog.run_bind] at hr
+  cases hciv : Tpm2.certInfo (Prog.run env askHashes) ciRaw with
+  | some ci =>
     rw [hciv] at hr
     dsimp only at hr
     cases hpa : stmtBytes o.stmt "pubArea" with
@@ -325,9 +325,8 @@ theorem tpm_core (env : Prog.Env) (o : AttObj) (h : Bytes) (res : Result)
     | some paRaw =>
     rw [hpa] at hr
     dsimp only at hr
-    rw [Prog.run_bind, Prog.run_query] at hr
-    cases hpav : env.answer (.tpmPubArea paRaw) with
-    | pubArea pa =>
+    cases hpav : Tpm2.pubArea paRaw with
+    | some pa =>
       rw [hpav] at hr
       dsimp only at hr
       cases had : attestedAuthData o with
@@ -362,9 +361,8 @@ theorem tpm_core (env : Prog.Env) (o : AttObj) (h : Bytes) (res : Result)
         rw [hn] at hr
         dsimp only at hr
         obtain ⟨-, hr⟩ := run_guard _ _ _ _ hr
-        rw [Prog.run_bind, Prog.run_query] at hr
-        cases hah : env.answer (.tpmAlgHash nameAlg) with
-        | nat hid =>
+        cases hah : Tpm2.hashOf (Prog.run env askHashes) nameAlg with
+        | some hid =>
           rw [hah] at hr
           dsimp only at hr
           obtain ⟨-, hr⟩ := run_guardM _ _ _ _ hr
@@ -385,10 +383,10 @@ theorem tpm_core (env : Prog.Env) (o : AttObj) (h : Bytes) (res : Result)
           obtain ⟨-, hr⟩ := run_guard _ _ _ _ hr
           obtain ⟨-, hr⟩ := run_guard _ _ _ _ hr
           exact ⟨der, c, rest, ciRaw, ci, ciEnc, rfl, (Option.some.inj hr).symm, rfl, hciv, hhash, hce, hsig⟩
-        | _ => rw [hah] at hr; cases hr
+        | none => rw [hah] at hr; cases hr
       | _ => rw [hn] at hr; cases hr
-    | _ => rw [hpav] at hr; cases hr
-  | _ => rw [hciv] at hr; cases hr
+    | none => rw [hpav] at hr; cases hr
+  | none => rw [hciv] at hr; cases hr
 /-! ### user-facing binding statements -/
 
 theorem packed_x5c_binding (env : Prog.Env) (o : AttObj) (h : Bytes) (res : Result)
@@ -422,7 +420,7 @@ theorem androidKey_binding (env : Prog.Env) (o : AttObj) (h : Bytes) (res : Resu
 theorem tpm_binding (env : Prog.Env) (o : AttObj) (h : Bytes) (res : Result)
     (hr : Prog.run env (verifyTPM o h) = some res) :
     ∃ der rest ciRaw ci ciEnc, res.x5c = der :: rest ∧ stmtBytes o.stmt "certInfo" = some ciRaw ∧
-      env.answer (.tpmCertInfo ciRaw) = .certInfo ci ∧
+      Tpm2.certInfo (Prog.run env askHashes) ciRaw = some ci ∧
       env.answer (.hash (Cose.algHash (getAlgorithm o.stmt)) (o.authData ++ h)) = .bytes ci.extraData ∧
       ci.encoded = some ciEnc ∧
       env.answer (.x509CheckSig der (Cose.algX509 (getAlgorithm o.stmt)) ciEnc (getSignature o.stmt)) = .bool true := by
